@@ -138,6 +138,12 @@ def C09(tier, seed):
         stages.append(acc_stage("unpaired", 30, R=6, name="unpaired_sim", simulate="num=400", shards=8))
         stages.append(acc_stage("arith", 40, R=8, name="arith_sim", simulate="num=400", shards=8))
         stages.append(acc_stage("harm", 40, R=8, name="harm_sim", simulate="num=300", shards=8))
+    # every pairwise merge schedule of 4 (5) chunks incl. empty and very unequal ones, and real rayon reductions
+    for fl in (("arith", "harm", "prop") if tier == "quick" else ("arith", "geo", "harm", "prop")):
+        t = acc_stage(fl, 0, R=4 if tier == "quick" else 5, shards=8, name=f"{fl}_merge_schedules",
+                      req=["C09.act.par_reduce", "C09.act.add", "C09.act.add_assign"])
+        t.env.update({"ACC_MODE": "trees", "ACC_CHUNKS": 4 if tier == "quick" else 5})
+        stages.append(t)
     stages[0].mc = mc
     stages[0].required |= {"C09.act.add", "C09.act.add_assign"}
     return {
@@ -146,8 +152,10 @@ def C09(tier, seed):
         "rule": "TLC enumerates by BFS every program of L calls (quick: L=3 for Arithmetic<f64>, L=2 for the six other flavours and "
                 "f32; thorough: L=3 everywhere, L=4 on a reduced alphabet, plus simulated programs of 30-40 calls over 6-8 registers) "
                 "over {new, append, extend, from_iter, clone, +=, +} and the flavour-specific feeders, including rejected values, failing "
-                "bulk calls and empty operands; after every call every register is observed twice and compared with the one-shot batch "
-                "computation on the multiset the specification says it represents. A program is distinct by its call sequence.",
+                "bulk calls and empty operands; every pairwise merge schedule (ordered pairs, `+` and `+=`) of 4 (5) chunks incl. an empty and a large one "
+                "(1152 (46080) schedules = every order a parallel reduce can combine them in) and real rayon reductions of 1..40 chunks; after every call every "
+                "register is observed twice and compared with the one-shot batch computation on the multiset the specification says it represents. "
+                "A program is distinct by its call sequence.",
         "assumptions": TLC_TRUST + ["data are exactly summable small integers (bit-exact comparison); geometric means are compared within 2^-40 relative",
                                    "real thread interleavings of a parallel reduce are not controlled: their possible merge orders are enumerated"],
     }
@@ -169,7 +177,7 @@ def run_builds(cases_path, trace_path):
                 env = dict(os.environ, CARGO_NET_OFFLINE="true")
             else:
                 cmd = ["cargo", "build", "--offline"] + c["flags"].split()
-                cwd = "/repo"
+                cwd = driver.REPO
                 env = dict(os.environ, CARGO_NET_OFFLINE="true", CARGO_TARGET_DIR=scratch)
             t0 = time.time()
             p = subprocess.run(cmd, cwd=cwd, env=env, stdout=subprocess.PIPE, stderr=subprocess.STDOUT, text=True)
@@ -255,7 +263,7 @@ def prop_stage(grp, nmax, req, levels="sel", shards=8, big=6):
 C02_REQ = ["C02.domain", "C02.no_panic", "C02.shape", "C02.in01", "C02.level_echo", "C02.root_lo", "C02.root_hi",
            "C02.around_estimate", "C02.front_end", "C02.negative_z", "C02.zero_z", "C02.method.wilson", "C02.method.wald",
            "C02.kind.two", "C02.kind.upper", "C02.kind.lower"] + \
-          ["C02.front_end." + f for f in ("ci", "ci_wilson_ratio", "ci_true", "ci_if", "stats_new", "stats_from_iter", "stats_extend_if", "stats_add")] + \
+          ["C02.front_end." + f for f in ("ci", "ci_wilson_ratio", "ci_true", "ci_if", "stats_new", "stats_from_iter", "stats_extend", "stats_extend_if", "stats_add", "stats_mixed")] + \
           ["C02.domain.%s.%s" % (d, m) for d in ("ok", "TooFewSuccesses", "TooFewFailures", "InvalidSuccesses") for m in ("wilson", "wald")]
 TABLES_MC = [("MC_Tables", "MC_Tables.cfg", {}, 1), ("MC_BigNum", "MC_BigNum.cfg", {}, 1)]
 NUM_TRUST = TLC_TRUST + ["the mpmath-generated quantile tables (spec/tables; axioms checked by MC_Tables in exact arithmetic)",
@@ -309,7 +317,7 @@ def C03(tier, seed):
     ranks.mc = [("MC_BigNum", "MC_BigNum.cfg", {}, 1)]
     perm = st("perm", ["C03.data_outcome", "C03.data_elements"] + ["C03.entry." + x for x in ("ci", "sorted", "max_n", "max_1024")]
               + ["C03.type." + x for x in ("i32", "f64", "char", "str")], {"P_N": 6 if q else 7})
-    shuf = st("shuffle", ["C03.data_outcome", "C03.data_elements"], {"Q_SHUFFLES": 60 if q else 600}, shards=4)
+    shuf = st("shuffle", ["C03.data_outcome", "C03.data_elements", "C03.distinct_values_shuffled"], {"Q_SHUFFLES": 60 if q else 600}, shards=4)
     return {
         "stages": [ranks, perm, shuf],
         "exhaustive": True,
@@ -472,7 +480,8 @@ def C08(tier, seed):
     streams = Stage("streams", ("Gen_Kahan", "Gen_Kahan.cfg"), ("Trace_Kahan", "Trace_Kahan.cfg"),
                     env={"PART": "streams"},
                     required=["C08.error_bound", "C08.long_stream.f32", "C08.long_stream.f64", "C08.merge_tree",
-                              "C08.statistics_inherit", "C08.statistics.f32", "C08.statistics.f64", "C08.act.add_block", "C08.act.add_cycle"])
+                              "C08.statistics_inherit", "C08.statistics.f32", "C08.statistics.f64", "C08.act.add_block", "C08.act.add_cycle",
+                              "C08.long_lfold.f32", "C08.long_rfold.f32", "C08.long_lfold.f64", "C08.long_rfold.f64"])
     return {
         "stages": [bfs, streams],
         "exhaustive": True,
